@@ -137,6 +137,13 @@ def xml_unescape(b):
     t = b.decode("utf-8")
     if "&" in XML_REF.sub("", t):
         raise ValueError("stray '&' in XML text")
+    # XML 1.1 (the version the documents declare): C0 controls other than TAB / LF / CR and the C1 controls other than
+    # NEL may only appear as character references; literal CR LF, CR NEL, CR, NEL and U+2028 are read as LF
+    for ch in t:
+        o = ord(ch)
+        if (o < 0x20 and ch not in "\t\n\r") or 0x7F <= o <= 0x84 or 0x86 <= o <= 0x9F:
+            raise ValueError(f"literal control character U+{o:04X} in an XML 1.1 document")
+    t = re.sub("\r\n|\r\x85|\r|\x85|\u2028", "\n", t)
     return XML_REF.sub(ref, t)
 
 
